@@ -482,6 +482,7 @@ func recvNamedCI(ci ssa.CallInstruction, name string) bool {
 }
 
 func runC11(c *core.Ctx) {
+	checkLayerMutatorsUnconditional(c)
 	ch := c.Fn(pkOverlayDB, "OverlayDB.ChangeHash")
 	fe := c.Fn(pkOverlayDB, "MemDB.ForEach")
 	put := c.Fn(pkOverlayDB, "MemDB.Put")
